@@ -606,6 +606,8 @@ func (d *Driver) run(cfg Config, seed uint64) (res Result) {
 		switch {
 		case k == cfg.Runs-1:
 			n = cfg.MaxLen
+		case k >= 4 && k%2 == 0:
+			n = 4 + r.IntN(min(cfg.MaxLen, 48)-3)
 		case k >= 4:
 			n = 4 + r.IntN(cfg.MaxLen-3)
 		}
@@ -961,6 +963,7 @@ func main() {
 	limit := flag.Int("limit", 6000000, "max slices enumerated exhaustively per sorter")
 	runs := flag.Int("runs", 8, "sort runs per sorter")
 	maxLen := flag.Int("maxlen", 200, "max slice length of the sort runs")
+	extra := flag.String("extra", "", "JSON files (comma separated) with further definitions run first (corpus/C08)")
 	flag.Parse()
 	if *gsortBin == "" || *work == "" {
 		fmt.Fprintln(os.Stderr, "c08: -gsort and -work are required")
@@ -992,6 +995,17 @@ func main() {
 		for i := 0; i < *n; i++ {
 			defs = append(defs, randomDef(r, i, false))
 		}
+	}
+	if *extra != "" {
+		var pre []Def
+		for _, p := range strings.Split(*extra, ",") {
+			var ds []Def
+			b, err := os.ReadFile(p)
+			must(err)
+			must(json.Unmarshal(b, &ds))
+			pre = append(pre, ds...)
+		}
+		defs = append(pre, defs...)
 	}
 	// package names must be distinct inside the module
 	seen := map[string]bool{}
